@@ -182,7 +182,7 @@ def _structured(stmts, mk_result):
 class Inliner:
     def __init__(self, prog, inventory):
         self.prog = prog
-        self.inv_funcs = set(inventory["functions"])
+        self.inv_funcs = set(inventory["functions"]) | {new for new, _old in getattr(prog, "relocated", [])}
         self.inv_globals = set(inventory["globals"])
         self.inv_cattrs = set(inventory["class_attrs"])
         self.counter = 0
@@ -732,6 +732,98 @@ def flatten_new_bases(prog, inv):
         if not changed:
             break
     return done
+
+
+def undo_renames(prog):
+    """N4: a function / method / class of the reference inventory that is missing from the current tree is looked for
+    (a) under the same name in another module (moved): it is registered under its old qualified name as well;
+    (b) under another name in the same module / class, with a canonically identical body (renamed): the new name is renamed
+        back throughout the program model.
+    Anything else stays missing and the rule that needs it reports ANALYSIS-ERROR (anchor not found)."""
+    inv = load_inventory()
+    if inv is None:
+        return
+    inv_funcs = set(inv["functions"])
+    top = [q for q in inv_funcs if q not in prog.functions]
+    if not top:
+        return
+    from .core import Program
+    from .canon import canon
+    from .refswap import REF_ROOT
+
+    if not os.path.isdir(os.path.join(REF_ROOT, "formulae")):
+        return
+    ref = Program(REF_ROOT, normalise=False)
+
+    def nameless(fnode):
+        f = copy.deepcopy(fnode)
+        f.name = "F"
+        return canon(f)
+
+    renames = {}
+    for q in sorted(top):
+        r = ref.functions.get(q)
+        if r is None or r.parent is not None:
+            continue
+        container = q.rsplit(".", 1)[0]
+        # (b) renamed inside the same container
+        cands = [f for fq, f in prog.functions.items() if f.parent is None and fq not in inv_funcs and fq.rsplit(".", 1)[0] == container
+                 and f.is_setter == r.is_setter and f.is_property == r.is_property]
+        same = []
+        for f in cands:
+            try:
+                if nameless(f.node) == nameless(r.node):
+                    same.append(f)
+            except Exception:  # noqa: BLE001
+                pass
+        if len(same) == 1 and same[0].name != r.name:
+            new, old = same[0].name, r.name
+            used_old = any(isinstance(n, (ast.FunctionDef, ast.ClassDef)) and n.name == old for m in prog.modules.values() for n in ast.walk(m.tree)
+                           if (m.name == container or container.startswith(m.name + ".")))
+            if new not in renames and not (used_old and r.cls is None):
+                renames[new] = old
+                prog.renamed.append((f"{container}.{new}", q))
+    if renames:
+        for m in prog.modules.values():
+            for n in ast.walk(m.tree):
+                if isinstance(n, (ast.FunctionDef, ast.AsyncFunctionDef)) and n.name in renames:
+                    n.name = renames[n.name]
+                elif isinstance(n, ast.Name) and n.id in renames:
+                    n.id = renames[n.id]
+                elif isinstance(n, ast.Attribute) and n.attr in renames:
+                    n.attr = renames[n.attr]
+                elif isinstance(n, ast.alias):
+                    if n.name in renames:
+                        n.name = renames[n.name]
+                    if n.asname in renames:
+                        n.asname = renames[n.asname]
+        prog._reindex()
+    # (a) moved: same simple name, same kind, elsewhere
+    for q in sorted(x for x in inv_funcs if x not in prog.functions):
+        r = ref.functions.get(q)
+        if r is None or r.parent is not None:
+            continue
+        cands = [f for fq, f in prog.functions.items() if f.parent is None and fq not in inv_funcs and f.name == r.name
+                 and ((f.cls is None) == (r.cls is None)) and (r.cls is None or f.cls.name == r.cls.name)]
+        if len(cands) == 1:
+            prog.functions[q] = cands[0]
+            prog.relocated.append((cands[0].qual, q))
+            if r.cls is None:
+                oldmod = q.rsplit(".", 1)[0]
+                if oldmod in prog.modules:
+                    prog.modules[oldmod].functions.setdefault(r.name, cands[0])
+    ref_classes = {c for c in ref.classes}
+    for cq in sorted(c for c in ref_classes if c not in prog.classes):
+        name = cq.rsplit(".", 1)[1]
+        cands = [c for q2, c in prog.classes.items() if c.name == name and q2 not in ref_classes]
+        if len(cands) == 1:
+            prog.classes[cq] = cands[0]
+            prog.relocated.append((cands[0].qual, cq))
+            oldmod = cq.rsplit(".", 1)[0]
+            if oldmod in prog.modules:
+                prog.modules[oldmod].classes.setdefault(name, cands[0])
+            for mn, mf in list(cands[0].methods.items()) + [(k + ".setter", v) for k, v in cands[0].setters.items()]:
+                prog.functions.setdefault(f"{cq}.{mn}", mf)
 
 
 def normalise(prog):
